@@ -15,7 +15,56 @@ func init() {
 	}
 }
 
+// util.Queue, one caller at a time (the `Seq` layer of ScrapliModel/Queue.lean): the struct is the
+// four state variables queue / depth / token (content of the 1-slot depthChan) / locked; blocking
+// for ever (Lock on a held lock, receive from the empty channel, send to the full one) and an index
+// out of range are the two faults.
+var queueState = []facts.StateVar{
+	{Key: "recv.queue", Lean: "queue", Ty: "list"},
+	{Key: "recv.depth", Lean: "depth", Ty: "int"},
+	{Key: "«content of recv.depthChan»", Lean: "token", Ty: "opaque:Option Int"},
+	{Key: "«recv.lock held»", Lean: "locked", Ty: "bool"},
+}
+
+var queueFail = &facts.FailMode{Ty: "Scrapli.Queue.Fault", Panic: ".error Scrapli.Queue.Fault.panic"}
+
+var queueLock = facts.Step{Pre: []string{"if locked then .error Scrapli.Queue.Fault.deadlock else", "let locked := true"}}
+
+var queueSteps = map[string]facts.Step{
+	"recv.lock.Lock()":          queueLock,
+	"recv.lock.RLock()":         queueLock,
+	"defer recv.lock.Unlock()":  {Defer: true, Pre: []string{"let locked := false"}},
+	"defer recv.lock.RUnlock()": {Defer: true, Pre: []string{"let locked := false"}},
+	"<-recv.depthChan": {Pre: []string{"match token with", "| none => .error Scrapli.Queue.Fault.deadlock", "| some _ => (",
+		"let token : Option Int := none"}, Post: ")"},
+	"%v := <-recv.depthChan": {BindTy: "int", Pre: []string{"match token with", "| none => .error Scrapli.Queue.Fault.deadlock",
+		"| some %v => (", "let token : Option Int := none"}, Post: ")"},
+	"recv.depthChan <- %0": {ArgTy: "int", Pre: []string{"match token with", "| some _ => .error Scrapli.Queue.Fault.deadlock",
+		"| none => (", "let token : Option Int := some %0"}, Post: ")"},
+	"%v := recv.getDepth()": {BindTy: "int", Pre: []string{"match getDepthTok queue depth token locked with", "| .error e => .error e",
+		"| .ok (%v, queue, depth, token, locked) => ("}, Post: ")"},
+}
+
+func queueFn(goName, lean string) *facts.FnSpec {
+	return &facts.FnSpec{Dir: "util", Recv: "Queue", Name: goName, Lean: lean, State: queueState, Steps: queueSteps,
+		Fail: queueFail, NilResult: true,
+		Doc: "State: `queue`, `depth`, `token` = content of `depthChan`, `locked` = the mutex is held."}
+}
+
 var bodyFiles = map[string]*facts.BodyFile{
+	// C20: util/queue.go
+	"BodiesQueue.lean": {
+		Imports:   []string{"ScrapliModel.Queue"},
+		Namespace: "Scrapli.Gen.Bodies.QueueSeq",
+		Fns: []*facts.FnSpec{
+			queueFn("getDepth", "getDepthTok"),
+			queueFn("Requeue", "requeue"),
+			queueFn("Enqueue", "enqueue"),
+			queueFn("Dequeue", "dequeue"),
+			queueFn("DequeueAll", "dequeueAll"),
+			queueFn("GetDepth", "getDepth"),
+		},
+	},
 	// C01: channel/read.go
 	"BodiesChannel.lean": {
 		Imports:   []string{"ScrapliModel.Channel"},
